@@ -135,10 +135,16 @@ hybiReadHeader(ws_ctx_t *wsctx, int *sockRet, int *nPayload)
 
 
   ws_dbg("header_read to %p with len=%d\n", headerDst, n);
-  ret = wsctx->ctxInfo.readFunc(wsctx->ctxInfo.ctxPtr, headerDst, n);
+  /* a header arriving in pieces may already hold the short header: then nothing
+   * is missing here (and n must never reach the read function as a huge size_t) */
+  ret = n > 0 ? wsctx->ctxInfo.readFunc(wsctx->ctxInfo.ctxPtr, headerDst, n) : 0;
   ws_dbg("read %d bytes from socket\n", ret);
-  if (ret <= 0) {
+  if (n > 0 && ret <= 0) {
     if (-1 == ret) {
+      if (errno == EAGAIN || errno == EWOULDBLOCK) {
+        /* no data right now: keep the header bytes already received */
+        goto ret_header_pending;
+      }
       /* save errno because rfbErr() will tamper it */
       int olderrno = errno;
       rfbErr("%s: read; %s\n", __func__, strerror(errno));
@@ -226,6 +232,9 @@ hybiReadHeader(ws_ctx_t *wsctx, int *sockRet, int *nPayload)
     ret = wsctx->ctxInfo.readFunc(wsctx->ctxInfo.ctxPtr, headerDst, n);
     if (ret <= 0) {
       if (-1 == ret) {
+        if (errno == EAGAIN || errno == EWOULDBLOCK) {
+          goto ret_header_pending;
+        }
         /* save errno because rfbErr() will tamper it */
         int olderrno = errno;
         rfbErr("%s: read; %s\n", __func__, strerror(errno));
@@ -371,6 +380,13 @@ hybiReadAndDecode(ws_ctx_t *wsctx, char *dst, int len, int *sockRet, int nInBuf)
     /* decode more data */
     if (-1 == (n = wsctx->ctxInfo.readFunc(wsctx->ctxInfo.ctxPtr, wsctx->writePos, nextRead))) {
       int olderrno = errno;
+      if (olderrno == EAGAIN || olderrno == EWOULDBLOCK) {
+        /* no data right now: stay inside the frame (undo the carry-over copy,
+         * it is repeated by the next call) */
+        wsctx->writePos -= wsctx->carrylen;
+        *sockRet = -1;
+        return wsctx->hybiDecodeState;
+      }
       rfbErr("%s: read; %s", __func__, strerror(errno));
       errno = olderrno;
       *sockRet = -1;
